@@ -38,3 +38,10 @@ CHECKS["C05"] = dict(
  text="All 16 binary numeric operators x 16 (left kind, right kind) pairs x all pairs from per-kind boundary sets (8 values per kind quick, 9-13 thorough: extremes, neighbours, powers of two, -0.0, 1e300, 1e-300, 2^53+1), plus unary minus and `!`. Operands reach the operator through run-time variables and are themselves verified in the output. Oracle: Python exact integers / IEEE doubles; result kind observed through hook H2; failure expected exactly for unrepresentable results, out-of-range shift amounts and zero divisors of any kind.",
  note="Dev profile (overflow checks on). Any non-zero exit counts as failure here (panic vs error is C17). Shifts are read as bit shifts of the result kind. Values outside the boundary sets are not explored.",
  design_ref="DESIGN.md section 4, C05")
+
+CHECKS["C06"] = dict(
+ category="exploration",
+ technique="bounded exhaustive enumeration of literal expression trees (depth <= 2 quick, <= 3 thorough), each executed folded and unfolded; differential oracle",
+ text="Every tree (leaf op leaf) over 33 literals of the four numeric kinds (boundary values, incl. the int literal that does not fit 32 bits) x 10 foldable operators, unary minus (also doubled), `!`, `get`, `or` with nil/present, list nesting; depth-2 trees (T op L), (L op T), -(T) over 8 leaves (quick: every 16th; thorough: all 105k); depth-3 trees of two shapes over 4 leaves (512k). Folded (literals) and unfolded (same tree over variables) programs must print the same value, the same run-time kind (hook H2) and the same `typeof`, and the compiler must reject the literal form exactly when the run-time evaluation fails.",
+ note="Dev profile. When both renderings are accepted and both die of the same dynamic type error (e.g. unary minus on a byte) the case is attributed to C02, not C06. Float digits compared by value.",
+ design_ref="DESIGN.md section 4, C06")
